@@ -136,6 +136,7 @@ class Engine:
         """want: set of oracle classes the calling property cares about:
         'value', 'solution-set', 'raises', 'purity', 'find', 'audit', 'vars', 'context', 'original-modified'."""
         res, rnd = self.res, self.ctx.rnd
+        trees = [P.normalize(t) for t in trees]
         out = common.drive(self.model_rule_lines(trees)) if self.ctx.driver_ok else None
         k = 0
         for t in trees:
